@@ -1239,13 +1239,13 @@ func famImportNames(t *tgen) {
 
 func famVisibility(t *tgen) {
 	t.feat("family:member-visibility")
-	ext := "package ext\n\ntype Remote struct {\n\tName   string\n\tsecret int\n\tOpen   int\n}\n\nfunc (r Remote) Get() int  { return r.secret }\nfunc (r Remote) peek() int { return r.secret }\n\ntype Opt struct {\n\tInner struct {\n\t\tA int\n\t\tb int\n\t}\n\tK int\n}\n"
-	local := fmt.Sprintf("package %s\n\nimport \"exp/%s/ext\"\n\n// a local type defined over a struct of another package\ntype Local ext.Remote\ntype LP *ext.Remote\ntype D1 struct {\n\tName   string\n\tsecret int\n\tOpen   int\n\tGet    int\n\tpeek   int\n}\ntype DO struct {\n\tInner struct {\n\t\tA int\n\t\tb int\n\t\tc int\n\t}\n\tK int\n}\n// blank fields\ntype B1 struct {\n\tA int\n\t_ int\n\tB string\n\tu int\n}\ntype Own struct {\n\tIn struct {\n\t\ta int\n\t\tB int\n\t}\n}\n", t.name, t.name)
+	ext := "package ext\n\ntype Remote struct {\n\tName   string\n\tsecret int\n\tOpen   int\n}\n\nfunc (r Remote) Get() int  { return r.secret }\nfunc (r Remote) peek() int { return r.secret }\n\ntype Opt struct {\n\tInner struct {\n\t\tA int\n\t\tb int\n\t}\n\tK int\n}\n\ntype base struct {\n\tID      int\n\tCreated int64\n\thidden  int\n}\n\n// Record embeds an unexported struct: its exported members are promoted\ntype Record struct {\n\tbase\n\tName string\n}\n"
+	local := fmt.Sprintf("package %s\n\nimport \"exp/%s/ext\"\n\n// a local type defined over a struct of another package\ntype Local ext.Remote\ntype LP *ext.Remote\ntype D1 struct {\n\tName   string\n\tsecret int\n\tOpen   int\n\tGet    int\n\tpeek   int\n}\ntype DO struct {\n\tInner struct {\n\t\tA int\n\t\tb int\n\t\tc int\n\t}\n\tK int\n}\n// blank fields\ntype B1 struct {\n\tA int\n\t_ int\n\tB string\n\tu int\n}\ntype Own struct {\n\tIn struct {\n\t\ta int\n\t\tB int\n\t}\n}\ntype RecL struct {\n\tID      int\n\tName    string\n\tCreated int64\n}\n", t.name, t.name)
 	var sb strings.Builder
 	sb.WriteString(header(t, fmt.Sprintf("\"exp/%s/ext\"", t.name)))
 	sb.WriteString("var _ ext.Opt\n\ntype Convergen interface {\n")
 	shapes := []string{"FromLocal%d(%sLocal) %sD1", "ToLocal%d(%sD1) %sLocal", "ToOpt%d(%sDO) %sext.Opt", "FromOpt%d(%sext.Opt) %sDO", "Blank%d(%sB1) %sB1",
-		"FromRemote%d(%sext.Remote) %sD1", "ToRemote%d(%sD1) %sext.Remote", "Own%d(%sOwn) %sOwn"}
+		"FromRemote%d(%sext.Remote) %sD1", "ToRemote%d(%sD1) %sext.Remote", "Own%d(%sOwn) %sOwn", "ToRec%d(%sRecL) %sext.Record"}
 	for j := 0; j < 2+t.r.Intn(3); j++ {
 		for _, n := range []string{":getter", ":case:off", ":typecast"} {
 			if t.ch(0.35) {
